@@ -270,10 +270,15 @@ func runC20(c *Check, a *Analysis) {
 				okc := false
 				for _, st := range p.storesToField("Conn", "shutdown") {
 					rf := st.Fn
-					cut, _ := p.guardEdges(rf, matchFieldNil(p, "Conn", storedField.Field))
-					_, _, miss := p.reachCut(rf, st.Instr, isReturnLike, func(x ssa.Instruction) bool {
-						return isCloseOf(x, func(recv ssa.Value) bool { return isLoadOf(p.canon(recv), "Conn", storedField.Field) })
-					}, cut)
+					field := storedField.Field
+					cutFor := func(f *ssa.Function) map[edge]bool {
+						cut, _ := p.guardEdges(f, matchFieldNil(p, "Conn", field))
+						return cut
+					}
+					eff := p.viaCallee(func(x ssa.Instruction) bool {
+						return isCloseOf(x, func(recv ssa.Value) bool { return isLoadOf(p.canon(recv), "Conn", field) })
+					}, cutFor)
+					_, _, miss := p.reachCut(rf, st.Instr, isReturnLike, eff, cutFor(rf))
 					if !miss {
 						okc = true
 					}
